@@ -54,6 +54,8 @@ class Natives(object):
             if isinstance(v, Ref) and trait in ('FnOnce', 'FnMut', 'Fn', 'Future', 'ScheduledJob', 'Stream', 'IntoFuture', 'ArcWake'):
                 # look through references / boxes to the concrete object
                 for x, c, p in v.tg:
+                    fr = m.freed.get(c.id) if not hasattr(c, 'tid') else None
+                    if fr is not None: m.violate('use-after-free:job-storage:%s' % c.name, And(g, gg, x, fr))
                     add(And(gg, x), m.load(Ref([(TRUE, c, p)]), g), Ref([(TRUE, c, p)]))
                 return
             if isinstance(v, St) and v.ty in ('Box', 'Pin', 'FutureObj', 'LocalFutureObj', 'AssertUnwindSafe'):
@@ -256,6 +258,7 @@ class Natives(object):
         # ---- Box
         def box_new(m, th, a, g):
             c = m.alloc(th, ('box',) + m.cur_site, 'box@' + m.cur_site_name)
+            if c.id in m.freed: m.freed[c.id] = And(m.freed[c.id], Not(g))
             m.store(Ref.to(c), a[0], g)
             return St('Box', {'p': Ref.to(c)})
         R('Box::new', box_new)
@@ -264,9 +267,19 @@ class Natives(object):
         def box_drop(m, th, a, g):
             b = m.load(a[0], g)
             if not isinstance(b, St): return UNIT
-            return Dispatch([(TRUE, s.fn_drop_in_place, [b.f['p']], 'boxcontent')])
+            return Dispatch([(TRUE, s.fn_box_free, [b.f['p']], 'boxcontent')])
+        def box_free(m, th, a, g):
+            p = a[0]
+            if isinstance(p, Ref):
+                for x, c, q in p.tg:
+                    if hasattr(c, 'tid'): continue
+                    old = m.freed.get(c.id, FALSE)
+                    m.violate('double-free:%s' % c.name, And(g, x, old))
+                    m.freed[c.id] = Or(old, And(g, x))
+            return UNIT
+        R('__box_free', box_free)
         R('__box_drop', box_drop)
-        T('Drop', 'drop', 'Box', lambda m, th, a, g: Dispatch([(TRUE, s.fn_drop_in_place, [m.load(a[0], g).f['p']], 'boxcontent')]))
+        T('Drop', 'drop', 'Box', lambda m, th, a, g: Dispatch([(TRUE, s.fn_box_free, [m.load(a[0], g).f['p']], 'boxcontent')]))
         # ---- Arc / Weak
         def arc_new(m, th, a, g):
             c = m.alloc(th, ('arc',) + m.cur_site, 'arc@' + m.cur_site_name)
@@ -615,6 +628,13 @@ class Natives(object):
         c1 = mp.Blk(); c1.term = ('return',)
         f2.blocks = {'bb0': c0, 'bb1': c1}
         s.prog.add_fn(f2); s.fn_drop_value = f2
+        # box content drop followed by freeing the allocation: bb0: drop(*_1) -> bb1; bb1: __box_free(_1) -> bb2; bb2: return
+        f3 = mp.Fn('__box_free_fn', '__box_free_fn'); f3.params = ['*mut T']; f3.origin = 'glue'
+        d0 = mp.Blk(); d0.term = ('drop', ('deref', ('local', 1)), 'bb1', None)
+        d1 = mp.Blk(); d1.term = ('call', ('local', 2), '__box_free', [('copy', ('local', 1))], 'bb2', None)
+        d2 = mp.Blk(); d2.term = ('return',)
+        f3.blocks = {'bb0': d0, 'bb1': d1, 'bb2': d2}
+        s.prog.add_fn(f3); s.fn_box_free = f3
         R('ptr::drop_in_place', lambda m, th, a, g: Dispatch([(TRUE, f, [a[0]], None)]))
     def arc_pinned(s, callee):
         x = callee.replace('std::sync::', '').replace('scheduler::', '')
